@@ -1,11 +1,16 @@
 """C18 — Synthesised dataclass constructors equal the ones CPython generates.
 
-(C) model g_init_member / g_label   vs  griffe.load (built-in dataclasses extension, as the loader runs it) on generated
-                                        class hierarchies written as real source files under ctx.scratch
-(O) model py_init_member / py_is_dataclass / "module raises"   vs  the same source executed by CPython
-                                        (cls.__dict__['__init__'], inspect.signature, dataclasses.is_dataclass)
-direct: Griffe's __init__ member vs CPython's, label vs is_dataclass, hand-written __init__ untouched, non-dataclass
-        classes get none — outside the known-gap predicates G2 G3 G4 G6 G7 as evaluated by the extracted model (F10: layout predicate in this module).
+(T) harness/translate/c18_flags.py: the shape of the merging code (current_mode), the keyword-only / default / reorder rules, the
+    skeleton (_post_load order, built-in extension, on_package_loaded, class branch of _apply_recursively) -> coq/Gen/C18_flags.v
+(C) model gm_init_member / g_label / gm_presented (in the translated shape) and the state machine `session`
+        vs  Griffe (built-in dataclasses extension, as the loader runs it) on generated class hierarchies written as real source
+            files under ctx.scratch: members['__init__'], labels, Class.parameters, after one load, after several loads through
+            one extensions object, after several packages through one loader
+(O) model py_init_member / py_is_dataclass / py_presented / "module raises"   vs  the same source executed by CPython
+        (cls.__dict__['__init__'], inspect.signature(cls.__init__), inspect.signature(cls), dataclasses.is_dataclass)
+direct: Griffe's __init__ member vs CPython's, Class.parameters of classes that inherit their constructor vs inspect.signature(cls),
+        label vs is_dataclass, hand-written __init__ untouched, non-dataclass classes get none — outside the known-gap predicates
+        of the shape as evaluated by the extracted model (F10: layout predicate in this module, confirmed by the model on the masked table).
 """
 from __future__ import annotations
 
@@ -16,30 +21,71 @@ import signal
 import sys
 
 ID = "C18"
-LEVEL_TEXT = ("Theorems over all class tables (any number of classes, any bodies, any MRO lists): the __init__ Griffe synthesises for a decorated "
-              "class without a hand-written __init__ has exactly the parameters (names, order, kind, required-ness) of the __init__ CPython's "
-              "dataclasses module generates, modulo five decidable known-gap predicates (findings F2, F3, F4, F6, F7; F1, F5, F8, F9 were repaired in the code), each refuted by a computed witness; "
-              "for single-inheritance tables of any depth the multiple-inheritance gap (F6) is proved impossible (CPython's accumulated field dict = flat reverse-MRO collection); a hand-written __init__ is kept by both; an "
-              "undecorated class gets none; the 'dataclass' label equals dataclasses.is_dataclass for every class. "
-              "The model is tied to extensions/dataclasses.py by differential runs on generated hierarchies loaded from files with griffe.load, "
-              "and the CPython model to real execution of the same source.")
+LEVEL_TEXT = ("Theorems over all class tables (any number of classes, any bodies, any MRO lists), for each of the three shapes the merging code of "
+              "extensions/dataclasses.py can have (the shape of the tree under test is read off its source on every run): the __init__ Griffe synthesises for a "
+              "decorated class without a hand-written __init__ has exactly the parameters (names, order, kind, required-ness) of the one CPython's dataclasses "
+              "module generates, modulo the decidable known-gap predicates that remain in that shape (FlatFilterFirst = the tree today: F2 F3 F4 F6 F7; "
+              "FlatFilterLast = F3 repaired: F2 F4 F6 F7; Accumulated = F3 and F6 repaired: F2 F4 F7), each refuted by a computed witness; in the Accumulated shape "
+              "names, order and kinds are CPython's for every hierarchy with no hypothesis on field forms or overrides (F2 only changes required-ness); for "
+              "single-inheritance tables of any depth F6 is proved impossible; the constructor PRESENTED for a class (Class.parameters, the only one a class inheriting "
+              "its __init__ has) is provided by the same class as in CPython and equal when the providers are gap-free; the extension as a state machine (memo of "
+              "_dataclass_parameters, InitVar members deleted after use, member-order walk, per-event set of seen paths) leaves on every class, after ANY history of "
+              "on_package_loaded events through one extension object, exactly the stateless result - and does not with the memo dropped or the seen set kept (computed "
+              "counterexamples); a hand-written __init__ is kept by both; an undecorated class gets none; the 'dataclass' label equals dataclasses.is_dataclass for every class. "
+              "The models are tied to the code by a translator (merge shape, keyword-only rule, default rule, reorder groups, MRO walk direction, _post_load order, "
+              "built-in extension, on_package_loaded, class branch of _apply_recursively) and by differential runs on generated hierarchies loaded from files "
+              "(single loads, version histories through one extensions object, package chains through one loader); the CPython model by real execution of the same source.")
 LEVEL_NOTE = ("Trusted: Coq kernel, extraction, the renderer structure->source text in this module, CPython 3.12 as authority. The MRO of each class "
-              "is an input (C07's subject): the harness feeds CPython's and checks Griffe's Class.mro() equals it. Default *values* and annotation "
+              "is an input (C07's subject): the harness feeds CPython's and checks Griffe's Class.mro() equals it; the Accumulated shape needs the MRO lists to be "
+              "well formed (wf_mro: earlier classes, closed under the MRO of members), checked on every case. The recursion of _dataclass_fields is modelled with explicit fuel; "
+              "C18_accumulated_fuel_suffices shows the out-of-fuel value is never observed on well-formed tables. Default *values* and annotation "
               "text are not compared (the property asks for names, order, kinds, required-ness). Class bodies bind each name at most once (plus the "
               "annotated-name-then-property form); undecorated classes contain no field() calls; field(default=..., default_factory=...) together "
-              "is not generated. Expression resolution of `dataclass`/`field`/`KW_ONLY`/`InitVar` spellings, module layout, wildcard expansion order and extension state across loads are exercised by the generator (layout and history streams), not modelled in Coq; finding C18-F10 (star import re-binding `dataclass`) lives there and is classified by a layout predicate in the harness, not by the model.")
-MODEL = ("Model.C18_run", "run_C18")
-MODEL_TARGETS = ["Model/C18_run.vo"]
-COQ_TARGETS = ["Proofs/C18_dataclass.vo", "Proofs/C18_session.vo"]
+              "is not generated. In the state machine the memo is warmed for the classes of the reversed MRO and the class itself; the real Accumulated code also memoises classes "
+              "reachable outside that list when the MRO lists are not closed (never for real MROs), with the same values. Expression resolution of `dataclass`/`field`/`KW_ONLY`/`InitVar` "
+              "spellings, module layout and wildcard expansion are exercised by the generator (layout, history and cross-package streams), not modelled in Coq: the translator only "
+              "pins the order of _post_load; finding C18-F10 (star import re-binding `dataclass`) lives there and is classified by a layout predicate in the harness, and accepted only when the "
+              "model applied to the table with those decorators dropped reproduces everything Griffe presents. Loading a package before the package its bases come from is not generated "
+              "(the bases are unresolvable then; not a defect). The theorems for the FlatFilterLast / Accumulated shapes describe the two fix commits prepared in build/fix-C18; "
+              "until they land the tree is FlatFilterFirst and F3, F6 stay known findings.")
+MODEL = ("Model.C18_main", "run_C18")
+MODEL_TARGETS = ["Model/C18_main.vo"]
+COQ_TARGETS = ["Proofs/C18_dataclass.vo", "Proofs/C18_modes.vo", "Proofs/C18_machine.vo", "Proofs/C18_presented.vo", "Proofs/C18_top.vo", "Proofs/C18_order.vo"]
 RULE = ("systematic: every (parent decorator, child decorator) pair over {undecorated} + {init in (absent,True,False)} x {kw_only in (absent,True,False)} "
         "x fixed body pairs; every single field form (5 annotation kinds x value none/plain/each field(...) argument combination) under each kw-only "
-        "context; seeded random diamonds A;B(A);C(A);D(B,C)|D(C,B) over three names; seeded random hierarchies of 1-4 classes (thorough: up to 5), depth <=3-4, 0-2 bases, bodies of 0-5 statements over a pool of 6 "
-        "names so that overrides collide, optional hand-written __init__, one-module or importable two-module package layout (35%; bases reach the derived module by from-import, same-package star import with/without __all__, or re-export through __init__), history stream: 2-3 versions of one package (same package and class names) loaded through ONE shared griffe.load_extensions() container, each version compared with CPython; `from __future__ import annotations` (9%), decorator/field/KW_ONLY/InitVar spelled bare or through `dataclasses.`. CPython-rejected modules are counted and compared with the model's rejection. non-trivial = at least one decorated class with "
+        "context; seeded random diamonds A;B(A);C(A);D(B,C)|D(C,B)[;E(D)] over three names with decorated / undecorated / init=False joins and hand-written __init__ in a branch "
+        "(classes that INHERIT their constructor, provider not the first base); seeded random hierarchies of 1-4 classes (thorough: up to 5), depth <=3-4, 0-2 bases, bodies of 0-5 statements over a pool of 6 "
+        "names so that overrides collide, optional hand-written __init__ (parameter named after the class), one-module (53%), importable two-module package (35%; bases reach the derived module by from-import, "
+        "same-package star import with/without __all__, or re-export through __init__) or cross-package layout (12% + a dedicated stream with 30% InitVar fields: 2-3 packages a<-b<-c loaded in dependency order "
+        "by ONE GriffeLoader, bases by from-import / re-export / star import); history stream: 2-3 versions of one package (same package and class names) loaded through ONE shared "
+        "griffe.load_extensions() container, each version compared with CPython and the whole history with the model's state machine; `from __future__ import annotations` (9%), "
+        "decorator/field/KW_ONLY/InitVar spelled bare or through `dataclasses.`. Every case also runs the state machine with the walk order of its layout (modules in random order). "
+        "CPython-rejected modules are counted and compared with the model's rejection. non-trivial = at least one decorated class with "
         "at least one annotated statement; distinct by rendered source")
 TRUSTED = ["renderer: harness turns the generated class table into source text; the same table is the model input (abstraction = generator structure)"]
 ASSUMPTIONS = ["Class.mro() equals CPython's __mro__ on the generated hierarchies (checked on every case; C07's property)",
+               "the MRO lists are well formed (wf_mro; checked on every case) - needed by the Accumulated shape only",
+               "one on_package_loaded event never meets the same canonical path twice (a package is a tree)",
                "a class body binds a name at most once (except `n: int` followed by `@property def n`)",
                "undecorated classes do not call field(); field() never gets both default and default_factory"]
+
+
+
+def translate(ctx):
+    from harness.translate import c18_flags
+    c18_flags.translate(ctx)
+
+
+def current_mode():
+    """the shape of the merging code as the translator last wrote it (Gen/C18_flags.v)"""
+    import re
+    from harness.common.framework import VERIF
+    m = re.search(r"Definition current_mode : mode := (\w+)\.", (VERIF / "coq/Gen/C18_flags.v").read_text())
+    return m.group(1) if m else "FlatFilterFirst"
+
+
+# findings that are no defects of the tree under test once the merging code has the repaired shape
+REPAIRED_BY_MODE = {"FlatFilterFirst": set(), "FlatFilterLast": {"C18-F3"}, "Accumulated": {"C18-F3", "C18-F6"}}
 
 NAMES = 6
 HDR = "from dataclasses import dataclass, field, KW_ONLY, InitVar\nimport dataclasses\nfrom typing import ClassVar\n"
@@ -363,6 +409,84 @@ def render_xpkg(table, where, name):
     return out, hw_line, (lambda i: f"{name}{where[i]}.m.K{i}")
 
 
+def layout_of(table, split):
+    """The generated files as the statements of Model/C18_layout.v, mirroring render / render_split / render_xpkg line by line
+    (only the order of the statements matters): returns (modules, per class (module index, base names))."""
+    where, imp = split_parts(split)
+    n = len(table)
+    if where is None:
+        return [[[["std"]] + [["class", i] for i in range(n)], []]], [[0, list(table[i]["bases"])] for i in range(n)]
+    if imp == "xpkg":
+        letters = sorted(set(where))
+        idx = {letter: 2 * p for p, letter in enumerate(letters)}        # __init__ of the package; its module m is idx + 1
+        mods = []
+        for letter in letters:
+            mine = [i for i in range(n) if where[i] == letter]
+            need = sorted({b for i in mine for b in table[i]["bases"] if where[b] != letter})
+            style = (table[mine[0]].get("style", 0) + len(need)) % 3
+            stmts, stars = [["std"]], []
+            for b in need:
+                q = idx[where[b]]
+                if style == 0:
+                    stmts.append(["from", q + 1, b])
+                elif style == 1:
+                    stmts.append(["from", q, b])
+                elif q + 1 not in stars:
+                    stars.append(q + 1)
+            stmts = [["star", q] for q in stars] + stmts
+            mods.append([[["from", idx[letter] + 1, i] for i in mine], []])
+            mods.append([stmts + [["class", i] for i in mine], []])
+        return mods, [[idx[where[i]] + 1, list(table[i]["bases"])] for i in range(n)]
+    mi = {"__init__": 0, "ma": 1, "mz": 2}
+    mods = {0: [[], []], 1: None, 2: None}
+    for m in (("ma", "mz") if where[0] == "ma" else ("mz", "ma")):
+        other = "mz" if m == "ma" else "ma"
+        mine = [i for i in range(n) if where[i] == m]
+        need = sorted({b for i in mine for b in table[i]["bases"] if where[b] != m})
+        stmts = [["std"]]
+        if imp in ("wild", "wild_all", "wild_shadow"):
+            if need:
+                stmts = [["star", mi[other]]] + stmts if imp == "wild" else stmts + [["star", mi[other]]]
+        elif imp in ("reexport", "reexport_from"):
+            stmts += [["from", 0, b] for b in need]
+        else:
+            stmts += [["from", mi[other], b] for b in need]
+        if imp == "reexport" and mine:
+            mods[0][0].append(["star", mi[m]])
+        if imp == "reexport_from" and mine:
+            mods[0][0] += [["from", mi[m], i] for i in mine]
+        mods[mi[m]] = [stmts + [["class", i] for i in mine], [list(mine)] if imp == "wild_all" else []]
+    return [mods[0], mods[1], mods[2]], [[mi[where[i]], list(table[i]["bases"])] for i in range(n)]
+
+
+def make_recorder():
+    """An extension placed BEFORE the built-in one: at on_package_loaded it notes, for every class of the package, the canonical
+    path of each decorator and the paths of the bases that resolve - what the dataclasses extension can see at that moment."""
+    import griffe
+
+    class Recorder(griffe.Extension):
+        def __init__(self):
+            super().__init__()
+            self.seen = {}
+
+        def on_package_loaded(self, *, pkg, **kwargs):  # noqa: ARG002
+            def walk(mod):
+                for mem in list(mod.members.values()):
+                    if mem.is_alias:
+                        continue
+                    if mem.is_module:
+                        walk(mem)
+                    elif mem.is_class:
+                        decs = [getattr(d.value, "canonical_path", str(d.value)) for d in mem.decorators]
+                        try:
+                            rb = [b.path for b in mem.resolved_bases]
+                        except Exception as e:  # noqa: BLE001
+                            rb = [f"raised {type(e).__name__}"]
+                        self.seen[mem.path] = [decs, rb]
+            walk(pkg)
+    return Recorder()
+
+
 def read_class(cls, i, hw_line):
     """What Griffe presents for one class: [__init__ member, 'dataclass' label, mro, presented constructor]."""
     m = cls.members.get("__init__")
@@ -402,20 +526,30 @@ def read_class(cls, i, hw_line):
 
 def griffe_view(ctx, table, hw_line_single, split, load=None):
     """Write the source under ctx.scratch and load it with Griffe.  Default: a fresh module name and default extensions
-    (=> built-in dataclasses extension, as the loader adds it).  load = {"name", "dir", "extensions"} selects a fixed package
-    name in its own directory and a shared Extensions container (history stream: several versions through ONE container).
-    Cross-package layouts (imp == "xpkg"): ONE GriffeLoader loads the packages one after the other in dependency order."""
+    (=> built-in dataclasses extension, as the loader adds it); layouts with several modules, and 30 % of the others, are loaded
+    through griffe.load_extensions(recorder) instead, which adds the built-in extension after the recorder.
+    load = {"name", "dir", "extensions", "recorder"} selects a fixed package name in its own directory and a shared Extensions
+    container (history stream: several versions through ONE container).
+    Cross-package layouts (imp == "xpkg"): ONE GriffeLoader loads the packages one after the other in dependency order.
+    Per class: [__init__ member, label, mro, presented constructor, what the recorder saw at the event or None]."""
     import griffe
     k = next(_counter)
     where, imp = split_parts(split)
+    rec = None
     if load is None:
         base = ctx.scratch / "src"
         name = f"c18m{k}" if where is None else f"c18p{k}"
         kwargs = {}
+        if where is not None or ctx.rng.random() < 0.3:
+            rec = make_recorder()
+            kwargs = {"extensions": griffe.load_extensions(rec)}
     else:
         base = ctx.scratch / load["dir"]
         name = load["name"]
         kwargs = {"extensions": load["extensions"]}
+        rec = load.get("recorder")
+        if rec is not None:
+            rec.seen.clear()
     base.mkdir(parents=True, exist_ok=True)
     if imp == "xpkg":
         base = base / f"x{k}"
@@ -428,21 +562,34 @@ def griffe_view(ctx, table, hw_line_single, split, load=None):
             loader = griffe.GriffeLoader(search_paths=[str(base)], **kwargs)
             for pkg in pkgs:
                 loader.load(pkg)
-        return [read_class(loader.modules_collection[locate(i)], i, hw_line) for i in range(len(table))]
-    if where is None:
-        src, hw_line = render(table)
-        (base / f"{name}.py").write_text(src)
-        locate = lambda i: f"K{i}"  # noqa: E731
+        get = lambda i: loader.modules_collection[locate(i)]  # noqa: E731
+        full = locate
     else:
-        d = base / name
-        d.mkdir()
-        mods, hw_line = render_split(table, where, name, imp)
-        for m, text in mods.items():
-            (d / f"{m}.py").write_text(text)
-        locate = lambda i: f"{where[i]}.K{i}"  # noqa: E731
-    with Watchdog():
-        pkg = griffe.load(name, search_paths=[str(base)], **kwargs)
-    return [read_class(pkg[locate(i)], i, hw_line) for i in range(len(table))]
+        if where is None:
+            src, hw_line = render(table)
+            (base / f"{name}.py").write_text(src)
+            locate = lambda i: f"K{i}"  # noqa: E731
+        else:
+            d = base / name
+            d.mkdir()
+            mods, hw_line = render_split(table, where, name, imp)
+            for m, text in mods.items():
+                (d / f"{m}.py").write_text(text)
+            locate = lambda i: f"{where[i]}.K{i}"  # noqa: E731
+        with Watchdog():
+            pkg = griffe.load(name, search_paths=[str(base)], **kwargs)
+        get = lambda i: pkg[locate(i)]  # noqa: E731
+        full = lambda i: f"{name}.{locate(i)}"  # noqa: E731
+    out = []
+    for i in range(len(table)):
+        r = read_class(get(i), i, hw_line)
+        seen = None
+        if rec is not None:
+            decs, rb = rec.seen.get(full(i), [None, None])
+            if decs is not None:
+                seen = [any(p == "dataclasses.dataclass" for p in decs), [full(b) in rb for b in table[i]["bases"]]]
+        out.append(r + [seen])
+    return out
 
 
 # ---------------------------------------------------------------- generation
@@ -681,6 +828,18 @@ def walk_events(rng, table, split):
     return [[i for m in mods for i in range(n) if where[i] == m]]
 
 
+def mask_table(table, f10):
+    """the table as Griffe reads it when the decorators of the classes in f10 are not recognised (their field() calls are plain values then)"""
+    out = []
+    for i, c in enumerate(table):
+        if i in f10:
+            body = [("attr", s[1], s[2], ("plain",) if s[3][0] == "field" else s[3]) if s[0] == "attr" else s for s in c["body"]]
+            out.append({**c, "dec": None, "body": body})
+        else:
+            out.append(c)
+    return out
+
+
 def shadowed(table, split):
     """C18-F10 classifier (layout level, outside the Coq model): classes defined in a module whose star import of a sibling
     (placed after the stdlib imports, sibling without __all__) re-binds `dataclass`, `field`, `KW_ONLY`, `InitVar`, `dataclasses`."""
@@ -724,13 +883,20 @@ def check_tables(ctx, tables, stream, use_model=True, mirror=False, loads=None, 
             elif r < 0.35:
                 split = rand_split(ctx.rng, table)
         prepared.append((ti, table, mros, split, load, walk_events(ctx.rng, table, split)))
+    masked = {}     # index in prepared -> model result for the table as Griffe reads it under finding F10 (decorators of shadowed modules unrecognised)
     if use_model:
         encs = [enc_table(t, m) for _, t, m, _, _, _ in prepared]
-        allres = ctx.model(encs + [enc_session(e[1], range(len(e[1])), ev) for e, (_, _, _, _, _, ev) in zip(encs, prepared)])
-        mres, sres = allres[:len(prepared)], allres[len(prepared):]
+        shadow = [(k, shadowed(t, sp)) for k, (_, t, _, sp, _, _) in enumerate(prepared)]
+        shadow = [(k, f) for k, f in shadow if f]
+        allres = ctx.model(encs + [enc_session(e[1], range(len(e[1])), ev) for e, (_, _, _, _, _, ev) in zip(encs, prepared)]
+                           + [["layout", *layout_of(t, sp)] for _, t, _, sp, _, _ in prepared]
+                           + [enc_table(mask_table(prepared[k][1], f), prepared[k][2]) for k, f in shadow])
+        np_ = len(prepared)
+        mres, sres, lres = allres[:np_], allres[np_:2 * np_], allres[2 * np_:3 * np_]
+        masked = {k: r for (k, _), r in zip(shadow, allres[3 * np_:])}
     else:
-        mres = sres = [None] * len(prepared)
-    for (ti, table, mros, split, load, events), mr, sr in zip(prepared, mres, sres):
+        mres = sres = lres = [None] * len(prepared)
+    for pk, ((ti, table, mros, split, load, events), mr, sr, lr) in enumerate(zip(prepared, mres, sres, lres)):
         src, hw_line = render(table)
         case = case_json(table, split)
         if load is not None:
@@ -775,15 +941,56 @@ def check_tables(ctx, tables, stream, use_model=True, mirror=False, loads=None, 
             ctx.observe("outcome", "CPython rejects the module")
             ctx.observe("cpython error", why.split(":")[0] + ":" + why.split(":")[1][:28])
         if use_model:
-            accepted, linear, per = mr
+            accepted, linear, per, m_mode, m_wf = mr
+            ctx.observe("shape of the merging code (translated)", m_mode)
+            if not m_wf:
+                ctx.tie_failure("oracle", "wf_mro(model) is false on MRO lists computed by CPython", {"mros": mros}, case)
             if bool(accepted) != (cv is not None):
                 ctx.tie_failure("oracle", "py_eval_table(model) accepts vs CPython executes the module",
                                 {"model_accepts": accepted, "cpython": why or "ok"}, case)
         f10 = shadowed(table, split)
+        if use_model:
+            # what the extension can see when the event fires: the layout model (Model/C18_layout.v) vs the recorder extension,
+            # and the layout predicate of this module vs the model
+            m_unrec = {i for i in range(len(table)) if not lr[i][0]}
+            if m_unrec != f10:
+                ctx.tie_failure("harness", "layout predicate `shadowed` vs recognised(model of the layout)", {"python": sorted(f10), "model": sorted(m_unrec)}, case)
+            for i, c in enumerate(table):
+                seen = gv[i][4]
+                if seen is None:
+                    continue
+                ctx.count("event-time observations")
+                want = [bool(lr[i][0]) if c["dec"] is not None else None, [bool(x) for x in lr[i][1]]]
+                have = [seen[0] if c["dec"] is not None else None, seen[1]]
+                if want != have:
+                    ctx.tie_failure("correspondence", "layout model: decorator recognised / bases resolved when on_package_loaded fires vs recorder extension",
+                                    {"class": i, "model": want, "impl": have}, case)
+                if c["dec"] is not None:
+                    ctx.observe("event time: decorator recognised", bool(seen[0]))
+                for x in seen[1]:
+                    ctx.observe("event time: base resolved", bool(x))
         tainted = {i for i in range(len(table)) if any(j in f10 for j in [i] + mros[i])}
+        f10_confirmed = set()
+        if pk in masked:
+            # finding F10 is a layout-level defect (name resolution of `dataclass` through a star import): the per-class model is
+            # applied to the table Griffe effectively sees (those decorators dropped) and must reproduce what Griffe presents
+            for i in range(len(table)):
+                mm = masked[pk][2][i]
+                # the label of the class itself comes from the visitor, which still sees `dataclass` bound to dataclasses.dataclass
+                # (the star import is expanded after the visit); the extension's view of the parents is the masked one
+                want = [mm[0], bool(mm[2]) or table[i]["dec"] is not None, dec_presented(mm[5])]
+                have = [norm_member(gv[i][0]), gv[i][1], gv[i][3]]
+                if want != have:
+                    ctx.tie_failure("correspondence", "model on the table with the shadowed decorators dropped (finding F10) vs Griffe",
+                                    {"class": i, "model": want, "impl": have}, case)
+                else:
+                    f10_confirmed.add(i)
+            ctx.observe("F10 layouts: classes reproduced by the model on the masked table", len(f10_confirmed))
+            f10 &= f10_confirmed
+            tainted &= f10_confirmed
         records[ti] = {"table": table, "mros": mros, "split": split, "gv": gv, "cv": cv, "f10": f10, "events": events, "case": case}
         for i, c in enumerate(table):
-            g_mem, g_label, g_mro, g_pres = gv[i]
+            g_mem, g_label, g_mro, g_pres, _seen = gv[i]
             if g_mro != mros[i]:
                 ctx.tie_failure("correspondence", "precondition: Class.mro() vs CPython __mro__ (C07)", {"griffe": g_mro, "cpython": mros[i], "class": i}, case)
             # hand-written __init__ is the user's, untouched
@@ -917,7 +1124,8 @@ def py_gaps(table, mros, i):
     g3 = bool(excl & incl)
     g4 = any(b["hw"] for b in chain)
     g6 = any(len(table[j]["bases"]) > 1 for j in mros[i] + [i])    # coarser than the model's G6
-    return [g2, g3, g4, g6, g7]
+    fixed = REPAIRED_BY_MODE[current_mode()]
+    return [g2, g3 and "C18-F3" not in fixed, g4, g6 and "C18-F6" not in fixed, g7]
 
 
 # ---------------------------------------------------------------- witnesses of the findings (replayed on the implementation each run)
@@ -954,11 +1162,14 @@ def replay_witnesses(ctx):
     gv = griffe_view(ctx, table, hw_line, split)
     cv, _ = cpython_view(src, len(table))
     ctx.witness("C18-F10", cv is not None and i in shadowed(table, split) and norm_member(gv[i][0]) != norm_member(cv[i][0]))
+    fixed = REPAIRED_BY_MODE[current_mode()]
     for fid, (table, i) in WITNESSES.items():
         mros = cpython_mros(table)
         src, hw_line = render(table)
         gv = griffe_view(ctx, table, hw_line, None)
         cv, _ = cpython_view(src, len(table))
+        if fid in fixed:
+            continue        # the tree has the repaired shape: the witness is a corpus case that must pass (explore)
         ctx.witness(fid, cv is not None and norm_member(gv[i][0]) != norm_member(cv[i][0]))
         if ctx.driver is not None:
             r = ctx.model([enc_table(table, mros)])[0]
@@ -979,7 +1190,8 @@ def check_histories(ctx, n, use_model=True, mirror=False):
     import griffe
     tables, loads, groups = [], [], []
     for _ in range(n):
-        ext = griffe.load_extensions()
+        rec = make_recorder() if ctx.rng.random() < 0.5 else None
+        ext = griffe.load_extensions(rec) if rec is not None else griffe.load_extensions()
         name = f"c18h{next(_counter)}"
         prev = []
         nver = ctx.rng.choice([2, 2, 3])
@@ -989,7 +1201,7 @@ def check_histories(ctx, n, use_model=True, mirror=False):
             t = first if v == 0 else (evolve(ctx.rng, first) if ctx.rng.random() < 0.6 else rand_table(ctx.rng, maxn=3, quiet=True))
             split = rand_split(ctx.rng, t) if (len(t) >= 2 and ctx.rng.random() < 0.3) else None
             tables.append(t)
-            loads.append({"name": name, "dir": f"hist/{name}/v{v}", "extensions": ext, "split": split, "prev": prev})
+            loads.append({"name": name, "dir": f"hist/{name}/v{v}", "extensions": ext, "recorder": rec, "split": split, "prev": prev})
     recs = check_tables(ctx, tables, "history: versions of one package through shared extensions", use_model=use_model, mirror=mirror, loads=loads)
     if not use_model:
         return
@@ -1035,8 +1247,11 @@ def evolve(rng, table):
 
 
 def explore(ctx):
+    import time
+    t_explore = time.time()      # the budget below is exploration time: waiting for the build lock (other checks compiling) does not count
     replay_witnesses(ctx)
-    check_tables(ctx, list(REPAIRED.values()), "corpus: witnesses of repaired defects (must pass)")
+    fixed = REPAIRED_BY_MODE[current_mode()]
+    check_tables(ctx, list(REPAIRED.values()) + [WITNESSES[f][0] for f in sorted(fixed)], "corpus: witnesses of repaired defects (must pass)")
     check_histories(ctx, ctx.budget(120, 500))
     sd = systematic_decorators()
     sf = systematic_forms()
@@ -1057,7 +1272,7 @@ def explore(ctx):
         batch.append(rand_table(ctx.rng, maxn=maxn, quiet=(k % 2 == 0)))
     for j in range(0, len(batch), 500):
         check_tables(ctx, batch[j:j + 500], "random hierarchies")
-        if ctx.elapsed() > (100 if ctx.quick else 800):
+        if time.time() - t_explore > (85 if ctx.quick else 800):
             ctx.notes.append(f"random stream stopped early after {j + 500} hierarchies (time budget)")
             break
     if not ctx.quick:
@@ -1076,6 +1291,10 @@ def search(ctx):
         if ctx.prop_failures:
             return
         check_tables(ctx, [rand_table(ctx.rng, maxn=4, quiet=(j % 2 == 0)) for j in range(200)], "search", use_model=False, mirror=True)
+        if ctx.prop_failures or ctx.elapsed() > 500:
+            return
+        check_tables(ctx, [rand_diamond(ctx.rng) for _ in range(60)], "search: diamonds", use_model=False, mirror=True)
+        check_tables(ctx, [rand_table(ctx.rng, maxn=4, quiet=True, initvar=0.3) for _ in range(60)], "search: cross-package", use_model=False, mirror=True, layout="xpkg")
         if ctx.prop_failures or ctx.elapsed() > 500:
             return
 
@@ -1108,7 +1327,7 @@ def replay(ctx, data):
     gv = griffe_view(ctx, table, hw_line, case.get("split"), load)
     cv, why = cpython_view(src, len(table))
     for i in range(len(table)):
-        print(f"K{i}: griffe {gv[i][:2]}  cpython {cv[i] if cv else why}")
+        print(f"K{i}: griffe member={gv[i][0]} label={gv[i][1]} Class.parameters(provider, after self)={gv[i][3]}\n     cpython {cv[i] if cv else why}")
     if ctx.driver is not None:
         print("model:", ctx.model([enc_table(table, cpython_mros(table))])[0])
     import subprocess
